@@ -201,6 +201,8 @@ H("C03", "information_content", "c03_kernel_omim", replay="solver-only", bounds=
 H("C03", "information_content", "c03_kernel_orpha", replay="solver-only", bounds="total,current in 0..=64 + {65535,65536}")
 H("C03", "information_content", "c03_monotone_in_current", replay="solver-only", tq=900, mem="medium", bounds="total <= 64, 1 <= c1 <= c2 <= total")
 H("C03", "information_content", "c03_get_kind_dispatch", bounds="all non-NaN f32 triples")
+H("C03", "builder", "c03_wiring_counts_per_kind", tier="thorough", mem="heavy", tt=5400, deep=True, args=FS, replay="solver-only",
+  bounds="Builder::calculate_information_content on 1 term; record maps of sizes (1,0,2) and per-term sets (1,0,1) with concrete keys")
 H("C03", "information_content", "c03_twin_must_fail", expect="fail")
 
 # ------------------------------------------------------------------------------------------------
@@ -224,6 +226,8 @@ for w in ("funsimavg", "funsimmax", "bma"):
     for d in ("2x3", "3x2", "3x3"):
         H("C05", "similarity", "c05_%s_%s" % (w, d), tier="thorough", mem="medium", tt=3600, deep=(d == "3x3"), bounds="%s, entries k/8" % d)
 H("C05", "similarity", "c05_empty_matrix_is_zero", bounds="0xN / Nx0, N <= 3")
+H("C05", "similarity", "c05_cached_similarity_is_transparent", tier="thorough", mem="heavy", tt=5400, deep=True,
+  bounds="CachedSimilarity over an asymmetric user similarity with symbolic values; 4 lookups on 2 terms (3 hash-map inserts with concrete keys)")
 H("C05", "similarity", "c05_twin_must_fail", expect="fail")
 
 # ------------------------------------------------------------------------------------------------
@@ -418,8 +422,8 @@ PROPERTIES["C04"] = dict(
             "GraphIC's denominator is accepted with or without the two terms themselves (the documentation does not fix it)",
     assumptions=["information contents are finite, in [0,16] (ln 65535 < 16) and non-decreasing from ancestor to descendant (C03)"],
 )
-C04Q = ["c04_resnik_siblings_gene", "c04_lin_siblings_gene", "c04_jc_siblings_gene", "c04_graphic_siblings_gene", "c04_mutation_distinct_gene", "c04_mutation_distinct_omim", "c04_mutation_self_gene"]
-C04T = ["c04_resnik_desc_anc_omim", "c04_lin_self_orpha", "c04_jc_self_omim", "c04_jc_desc_root_orpha", "c04_relevance_siblings_omim", "c04_infocoeff_siblings_gene",
+C04Q = ["c04_resnik_siblings_gene", "c04_lin_siblings_gene", "c04_jc_siblings_gene", "c04_jc_self_omim", "c04_graphic_siblings_gene", "c04_mutation_distinct_gene", "c04_mutation_distinct_omim", "c04_mutation_self_gene"]
+C04T = ["c04_resnik_desc_anc_omim", "c04_lin_self_orpha", "c04_jc_desc_root_orpha", "c04_relevance_siblings_omim", "c04_infocoeff_siblings_gene",
         "c04_infocoeff_desc_anc_orpha", "c04_graphic_desc_anc_omim", "c04_graphic_self_gene", "c04_mutation_distinct_orpha", "c04_builtins_dispatch_resnik_lin"]
 for n in C04Q:
     H("C04", "similarity_defaults", n, mem="heavy", tq=1500, args=FS, replay=("native" if "mutation" in n else "native"), bounds=n[4:])
